@@ -200,6 +200,7 @@ StepViolations(e) ==
     \cup (IF e.pktmax > 0 /\ e.op \notin {"Encode", "EncodeDigest"} /\
              \E i \in DOMAIN e.pktlens : e.pktlens[i] > e.pktmax
           THEN {"FitsBudget"} ELSE {})
+    \cup (IF e.unord > 0 THEN {"EmittedInVersionOrder"} ELSE {})
     \cup (IF e.op = "Encode" THEN EncodeViolations(e) ELSE {})
     \cup (IF e.op = "EncodeDigest" THEN EncodeDigestViolations(e) ELSE {})
     \cup (IF e.op # "RemoveExpired" /\ \E o \in Node : Known(o) \ DOMAIN st'[o] # {}
